@@ -1,7 +1,7 @@
 #!/usr/bin/env bash
 # runs every property's check in the given tier; prints one status line each
 tier="${1:-quick}"
-cd /verif
+cd "$(dirname "${BASH_SOURCE[0]}")"
 for i in $(seq -w 1 20); do
   id="C$i"
   s=$(date +%s.%N)
